@@ -276,9 +276,10 @@ class Zeus(AbstractMCMC):
         search_internal = search_internal or self.paths.load_search_internal()
 
         if os.environ.get("PYAUTOFIT_TEST_MODE") == "1":
-
+            discard = 5
+            thin = 5
             samples_after_burn_in = search_internal.get_chain(
-                discard=5, thin=5, flat=True
+                discard=discard, thin=thin, flat=True
             )
 
         else:
@@ -294,7 +295,9 @@ class Zeus(AbstractMCMC):
 
 
         parameter_lists = samples_after_burn_in.tolist()
-        log_posterior_list = search_internal.get_log_prob(flat=True).tolist()
+        log_posterior_list = search_internal.get_log_prob(
+            discard=discard, thin=thin, flat=True
+        ).tolist()
         log_prior_list = model.log_prior_list_from(parameter_lists=parameter_lists)
 
         log_likelihood_list = [
